@@ -1031,6 +1031,8 @@ impl Model for Cw20Model {
                                 .save(&mut inst.store, (&x, &x), &AllowanceResponse { allowance: Uint128::new(1), expires: Expiration::Never {} })
                                 .unwrap();
                             injected = true;
+                            // the legacy row is part of the books from now on
+                            r.allow.insert((0, 0), (1, ExpKey::Never));
                         }
                     }
                 }
